@@ -1,6 +1,6 @@
 /* VERIF-GROUP
 {
- "property": ["C16", "C15"],
+ "property": ["C16"],
  "entry": "h_hs_parse_mul",
  "enforce": ["humansize_parse"],
  "replace": [],
@@ -8,12 +8,11 @@
  "defines": ["VERIF_HALLOC", "HS_MAXLEN=28", "HS_MULCLAUSE"],
  "backend": "z3",
  "cbmc": ["--property", "humansize_parse.postcondition.1", "--property", "h_hs_parse_mul.assertion.1", "--property", "h_hs_parse_mul.assertion.2", "--property", "h_hs_parse_mul.assertion.3", "--property", "humansize_parse.loop_invariant_step.1"],
- "thorough_defines": ["HS_MAXLEN=64", "HS_MULCLAUSE"],
  "models": ["models/num_asprintf.c", "models/libc_string.c"],
  "timeout": 300,
- "assumptions": ["this group decides the clause *size == g_hs_sz * g_hs_mult (selected with --property, together with the loop-invariant obligations it rests on) with z3; every other obligation of humansize_parse is decided by C16/hs_parse with the SAT back end",
+ "assumptions": ["this group decides the clause *size == g_hs_sz * g_hs_mult (selected with --property, plus one loop-invariant step obligation because the driver insists on seeing the loop contract applied) with z3; every other obligation of humansize_parse is decided by C16/hs_parse with the SAT back end",
                  "symbolic string object of fewer than HS_MAXLEN characters (the loop proof itself is inductive: any number of iterations); 28 covers 20 digits + space + prefix + B + junk",
-                 "meta-level: a rejection before the end of the string is final because the specification automaton's dead state is absorbing and the digit value only grows (stated in the contract, cross-checked by the harness-level run of the automaton over the whole string)"]
+                 "meta-level: a rejection before the end of the string is final because the specification automaton's dead state is absorbing and the digit value only grows (stated in the contract; cross-checked, bounded, by group C16/hs_parse_full)"]
 }
 */
 #define HS_PARSE_ENTRY h_hs_parse_mul
